@@ -663,3 +663,77 @@ func cloneNode(n *iavl.ExportNode) *iavl.ExportNode {
 	}
 	return &c
 }
+
+// unloadedCommit: a new handle on a store that already holds versions 1 and 2 is NOT loaded; its working
+// version is 1, which exists. The property's rule for committing an existing version number applies: success
+// without effect iff the root hash is identical (write = "same"), an error leaving the store unchanged
+// otherwise (write = "other": different content; "none": the empty tree). Afterwards the history, read
+// through the same handle and through a properly loaded one, must be what it was.
+func unloadedCommit(fast bool, write string) string {
+	db, cleanup := scenarioDB("mem")
+	defer cleanup()
+	t := iavl.NewMutableTree(db, 100, !fast, iavl.NewNopLogger())
+	var hashes [][]byte
+	for v := 1; v <= 2; v++ {
+		_, _ = t.Set([]byte("a"), []byte(fmt.Sprint(v)))
+		h, ver, err := t.SaveVersion()
+		if err != nil || ver != int64(v) {
+			return fmt.Sprintf("setup: commit %d -> %d, %v", v, ver, err)
+		}
+		hashes = append(hashes, h)
+	}
+	fresh := iavl.NewMutableTree(db, 100, !fast, iavl.NewNopLogger())
+	switch write {
+	case "same":
+		_, _ = fresh.Set([]byte("a"), []byte("1"))
+	case "other":
+		_, _ = fresh.Set([]byte("a"), []byte("9"))
+	}
+	h, ver, err := fresh.SaveVersion()
+	if write == "same" {
+		if err != nil || ver != 1 || !bytes.Equal(h, hashes[0]) {
+			return fmt.Sprintf("re-commit of version 1 with identical content on an unloaded handle: want (hash of v1, 1, nil), got (%x, %d, %v)", h, ver, err)
+		}
+	} else if err == nil {
+		return fmt.Sprintf("commit of existing version 1 with different content (%s) on an unloaded handle was accepted (returned version %d)", write, ver)
+	}
+	for name, tr := range map[string]*iavl.MutableTree{"the same handle": fresh, "a loaded handle": nil} {
+		if tr == nil {
+			tr = iavl.NewMutableTree(db, 100, !fast, iavl.NewNopLogger())
+			if lv, err := tr.Load(); err != nil || lv != 2 {
+				return fmt.Sprintf("%s: Load -> %d, %v (want 2)", name, lv, err)
+			}
+		}
+		if lv, err := tr.GetLatestVersion(); err != nil || lv != 2 {
+			return fmt.Sprintf("%s: GetLatestVersion -> %d, %v (want 2)", name, lv, err)
+		}
+		if av := tr.AvailableVersions(); len(av) != 2 || av[0] != 1 || av[1] != 2 {
+			return fmt.Sprintf("%s: AvailableVersions -> %v (want [1 2])", name, av)
+		}
+		for v := 1; v <= 2; v++ {
+			val, err := tr.GetVersioned([]byte("a"), int64(v))
+			if err != nil || string(val) != fmt.Sprint(v) {
+				return fmt.Sprintf("%s: GetVersioned(a, %d) -> %q, %v", name, v, val, err)
+			}
+			it, err := tr.GetImmutable(int64(v))
+			if err != nil {
+				return fmt.Sprintf("%s: GetImmutable(%d): %v", name, v, err)
+			}
+			if !bytes.Equal(it.Hash(), hashes[v-1]) {
+				return fmt.Sprintf("%s: root hash of version %d changed", name, v)
+			}
+		}
+	}
+	return ""
+}
+
+func init() {
+	for _, fast := range []bool{false, true} {
+		for _, w := range []string{"none", "same", "other"} {
+			fast, w := fast, w
+			allScenarios[fmt.Sprintf("unloaded-commit/index-%v/%s", fast, w)] = func() string {
+				return watchdog(20*time.Second, func() string { return unloadedCommit(fast, w) })
+			}
+		}
+	}
+}
